@@ -86,7 +86,7 @@ func (g *Gen) seedGenesis(gs *GenesisSpec) {
 		}
 		a.Topics = append(a.Topics, t)
 	}
-	if r.Chance(0.15) {
+	if r.Chance(0.15) || (g.prop == "C02" || g.prop == "C13") && r.Chance(0.2) {
 		// an owner with 254-257 topics and a topic with 254-257 writers: counters and listings cross the 255/256 boundary
 		ob := g.env.Accs[3].Addr
 		nt := r.Range(254, 257)
